@@ -282,24 +282,18 @@ int main(int argc, char **argv) {
         unsigned long s0 = (unsigned long) r->y.back();
         for (size_t i = 0; i < r->n; i++) vserial[bitsof(r->y[i * g_outs])] = s0 + i;
     }
-    std::ostringstream tr;
     char tmp[64];
-    for (auto &il : init_loaded) (void) il;
+    std::ostringstream tr; // CALL lines (black-box log)
     for (const Rec *r : all) {
-        if (r->event == 100) {
-            unsigned long s0 = (unsigned long) r->y.back();
-            tr << "CALL " << r->id << " " << r->ticket << " " << r->ticket2 << " " << s0 << " " << r->n;
-            for (size_t i = 0; i < r->n; i++) tr << " " << pid_of(&r->x[i * g_dims]);
-            tr << " |";
-            for (size_t i = 0; i + 1 < r->y.size(); i++) { snprintf(tmp, sizeof tmp, " %a", r->y[i]); tr << tmp; }
-            tr << "\n";
-            // two trace events for the protocol model
-            tr << "T " << r->ticket << " " << (r->id + 1) << " model_enter " << r->id << " " << r->n << " |";
-            for (size_t i = 0; i < r->n; i++) tr << " " << pid_of(&r->x[i * g_dims]);
-            tr << " |\n";
-        }
+        if (r->event != 100) continue;
+        unsigned long s0 = (unsigned long) r->y.back();
+        tr << "CALL " << r->id << " " << r->ticket << " " << r->ticket2 << " " << s0 << " " << r->n;
+        for (size_t i = 0; i < r->n; i++) tr << " " << pid_of(&r->x[i * g_dims]);
+        tr << " |";
+        for (size_t i = 0; i + 1 < r->y.size(); i++) { snprintf(tmp, sizeof tmp, " %a", r->y[i]); tr << tmp; }
+        tr << "\n";
     }
-    // the exit events must be merged by their own ticket: build a second list
+    // protocol trace: a model call contributes two events (enter, exit) that are merged by their own tickets
     struct Line { unsigned long t; std::string s; };
     std::vector<Line> lines;
     for (const Rec *r : all) {
@@ -360,13 +354,7 @@ int main(int argc, char **argv) {
     for (auto &il : init_loaded) printf(" %d", il.first);
     printf("\n");
     for (auto &il : init_loaded) { printf("IV %d", il.first); for (double v : il.second) printf(" %a", v); printf("\n"); }
-    // CALL lines
-    {
-        std::string s = tr.str();
-        std::istringstream is(s);
-        std::string ln;
-        while (std::getline(is, ln)) if (ln.compare(0, 5, "CALL ") == 0) printf("%s\n", ln.c_str());
-    }
+    fputs(tr.str().c_str(), stdout);
     for (auto &l : lines) printf("%s\n", l.s.c_str());
     printf("FINAL loaded %zu needed %d construction %d\n", nloaded, grid.getNumNeeded(), grid.isUsingConstruction() ? 1 : 0);
     fputs(fin.str().c_str(), stdout);
